@@ -6,7 +6,7 @@
 import AITB.Props.C03Tie
 import AITB.Props.C03Anytime
 
-namespace AITB.POMDP
+namespace AITB.POMDP3
 open AITB.MDP
 
 /-- clause `â€¦_vector_above_optimal_value` / `lb_above_optimal_value`: a vector that is sound w.r.t. `upperRef c j k` passes at every probe -/
@@ -40,4 +40,4 @@ theorem lb_le_ub_of_sound (m : POMDP) (hv : Valid m) (hS : 0 < m.S) (cL : Nat â†
     (isInterp_ge m hv _ _ (lowerRef_sublin m hv cL j' k') st hsnd b0 hb0 u hu)
   linarith
 
-end AITB.POMDP
+end AITB.POMDP3
